@@ -1090,6 +1090,15 @@ def bind_parameter(binding_key,
     raise RuntimeError('Attempted to modify locked Gin config.')
 
   pbk = ParsedBindingKey.parse(binding_key)
+  # Resolving the key may have registered a class again (dynamic registration of
+  # one of its methods). References inside `value` were created before that and
+  # are not in the configuration yet, so they still hold the old registration.
+  for reference in iterate_references(value):
+    stale = reference.configurable
+    if stale.selector in _REGISTRY:
+      current = _REGISTRY[stale.selector]
+      if current is not stale and current.wrapped is stale.wrapped:
+        reference.initialize(current)
   fn_dict = _CONFIG.setdefault(pbk.config_key, {})
   fn_dict[pbk.arg_name] = value
 
